@@ -139,7 +139,9 @@ func c13Run(c *Ctx) {
 	g := c.L("gen")
 	cfg := c.L("cfg")
 	long := g.Chance(1, 10)
+	gen.XDateExtra = c.L("gen:y")
 	rec := gen.DrawXRecord(g, long)
+	gen.XDateExtra = nil
 	hasLong := false
 	for _, p := range rec.Props {
 		if p.Long {
